@@ -1,6 +1,75 @@
 import TantivyModel.Driver.Proto
+import TantivyModel.Model.Reader
+/-!
+Line protocol of the reader / GC protocol model.
+
+  C05 trace <disc> <events>     disc ∈ full | noreaderlock | nogclock
+      → `<ok|bad:i> pubs=<R.K.j,…> badopens=<R.K.P,…> loads=<R.K.j,…> handles=<R.K:p+p+…;…>`
+  C05 seq <ρ> <events>          → `seq=<0|1> pubs=<j,…> mono=<0|1>`
+  C05 disc                      → the discipline the extractor reads off the source text
+
+events are `;`-separated: `a.R.K` acquire, `l.R.K` loadMeta, `o.R.K.P` openFile, `r.R.K`
+release, `p.R.K` publish, `c.P.B` create, `s.P,P,…` saveMeta (`s.-` = no files), `ga`,
+`gl.P,P,…` gcList (living set), `gr`, `gd.P`.
+-/
 namespace TantivyModel.Driver.C05
-/-- stub: the model for C05 is not built yet -/
+open TantivyModel TantivyModel.Proto TantivyModel.Reader
+
+def parseEv (s : String) : Option Ev :=
+  match s.splitOn "." with
+  | ["a", r, k] => do some (.acquire ((← r.toNat?), (← k.toNat?)))
+  | ["l", r, k] => do some (.loadMeta ((← r.toNat?), (← k.toNat?)))
+  | ["o", r, k, p] => do some (.openFile ((← r.toNat?), (← k.toNat?)) (← p.toNat?))
+  | ["r", r, k] => do some (.release ((← r.toNat?), (← k.toNat?)))
+  | ["p", r, k] => do some (.publish ((← r.toNat?), (← k.toNat?)))
+  | ["c", p, b] => do some (.create (← p.toNat?) (← b.toNat?))
+  | ["s", l] => do some (.saveMeta (← natList l))
+  | ["ga"] => some .gcAcquire
+  | ["gl", l] => do some (.gcList (← natList l))
+  | ["gr"] => some .gcRelease
+  | ["gd", p] => do some (.gcDelete (← p.toNat?))
+  | _ => none
+
+def parseTrace (s : String) : Option (List Ev) :=
+  if s == "-" then some [] else (s.splitOn ";").mapM parseEv
+
+def parseDisc : String → Option Disc
+  | "full" => some full
+  | "noreaderlock" => some { readerLock := false }
+  | "nogclock" => some { gcLock := false }
+  | _ => none
+
+def showRid (r : Rid) : String := toString r.1 ++ "." ++ toString r.2
+
+def joinOr (l : List String) (sep : String) : String :=
+  if l.isEmpty then "-" else sep.intercalate l
+
 def handle : List String → String
+  | ["trace", d, evs] =>
+    match parseDisc d, parseTrace evs with
+    | some d, some t =>
+      let s := run init t
+      let verdict := match firstBad d init t 0 with
+        | none => "ok"
+        | some i => "bad:" ++ toString i
+      let started := s.started.reverse
+      let pubs := s.pubs.map (fun x => showRid x.1 ++ "." ++ toString x.2)
+      let bad := s.badOpens.reverse.map (fun x => showRid x.1 ++ "." ++ toString x.2)
+      let loads := started.filterMap (fun r => (s.rs r).j.map (fun j => showRid r ++ "." ++ toString j))
+      let hs := started.map (fun r =>
+        showRid r ++ ":" ++ joinOr ((searcherOf s r).reverse.map (fun h => toString h.path)) "+")
+      verdict ++ " pubs=" ++ joinOr pubs "," ++ " badopens=" ++ joinOr bad "," ++
+        " loads=" ++ joinOr loads "," ++ " handles=" ++ joinOr hs ";"
+    | _, _ => "bad-op"
+  | ["seq", ρ, evs] =>
+    match ρ.toNat?, parseTrace evs with
+    | some ρ, some t =>
+      let js := pubsOf ρ (run init t)
+      let mono := (js.zip js.tail).all (fun x => x.1 ≤ x.2)
+      "seq=" ++ showBool (sequential ρ t) ++ " pubs=" ++ showNatList js ++ " mono=" ++ showBool mono
+    | _, _ => "bad-op"
+  | ["disc"] =>
+    "readerLock=" ++ showBool codeDisc.readerLock ++ " gcLock=" ++ showBool codeDisc.gcLock
   | _ => "bad-op"
+
 end TantivyModel.Driver.C05
